@@ -213,7 +213,13 @@ func (f *fnTrans) noteAssumed(s string) {
 }
 
 func (f *fnTrans) unsupported(format string, a ...interface{}) {
-	f.vc.Unsupported = append(f.vc.Unsupported, fmt.Sprintf(format, a...))
+	m := fmt.Sprintf(format, a...)
+	for _, u := range f.vc.Unsupported {
+		if u == m {
+			return
+		}
+	}
+	f.vc.Unsupported = append(f.vc.Unsupported, m)
 }
 
 func (f *fnTrans) rangeFact(t Term, typ types.Type) Term {
@@ -886,6 +892,15 @@ func TranslateFn(w *World, fn *ssa.Function) *FnVC {
 		f.vals[fv] = t
 		f.fact(True, And(Gt(t, IntLit(0)), Le(App("root", SInt, t), f.heap("G$allocTop"))))
 	}
+	for _, n := range w.TPkg.Scope().Names() {
+		if v, ok := w.TPkg.Scope().Lookup(n).(*types.Var); ok {
+			switch v.Type().Underlying().(type) {
+			case *types.Pointer, *types.Map, *types.Slice:
+				h := w.Heap("G$"+n, w.SortOf(v.Type()))
+				f.fact(True, f.rangeFact(f.heap(h), v.Type()))
+			}
+		}
+	}
 	for _, gi := range w.Spec.GlobalInvs {
 		ex, err := ParseSpecExpr(gi[0])
 		if err != nil {
@@ -1211,6 +1226,10 @@ func (f *fnTrans) loopEntry(li *loopInfo, preds []*ssa.BasicBlock, conds []Term)
 		f.vals[phi] = t
 		li.phiTerm[phi] = t
 		f.factHere(f.rangeFact(t, phi.Type()))
+		if phi.Comment == "rangeindex" {
+			// the hidden index of a range loop starts at -1 and only ever grows by one
+			f.factHere(Ge(t, IntLit(-1)))
+		}
 		if phi.Comment != "" {
 			over[phi.Comment] = TV{t, phi.Type()}
 		}
